@@ -120,6 +120,11 @@ def scanSecs : List Char → Option (List Char)
   | ':' :: r => match digits 2 r with | some (_, s) => some s | none => none
   | s => some s
 
+/-- an optional literal character (`:?`, `[+]?`) -/
+def skipChar (c : Char) : List Char → List Char
+  | [] => []
+  | x :: r => if x = c then r else x :: r
+
 /-- `( [+-] [0-9]{2} ) :? ( [0-9]{2} )` up to the end of the string -/
 def scanNum : List Char → Option Zone
   | sg :: s =>
@@ -127,7 +132,7 @@ def scanNum : List Char → Option Zone
       match digits 2 s with
       | none => none
       | some (h, s) =>
-        let s := match s with | ':' :: r => r | _ => s
+        let s := skipChar ':' s
         match digits 2 s with
         | some (m, []) => some (.num (sg :: h) m)
         | _ => none
@@ -140,21 +145,21 @@ def lookupTz (a : List Char) : Option (List (List Char)) :=
   | some e => some e.2
   | none => none
 
-/-- the optional zone group followed by `$`, on the text after `\s*` -/
+/-- `(?: GMT | UTC )` -/
+def zonePrefix (s : List Char) : Option (List Char) :=
+  (stripPre ['G','M','T'] s).or (stripPre ['U','T','C'] s)
+
+/-- `[+]? (abbr)` up to the end of the string; or no zone at all -/
+def scanAbbr (s : List Char) : Option Zone :=
+  let a := skipChar '+' s
+  match lookupTz a with
+  | some _ => some (.abbr a)
+  | none => if s = [] then some .none else none
+
+/-- the optional zone group followed by `$`, on the text after `\s*`: the numeric alternative with a prefix, without
+    one, then the abbreviation alternative, then no zone (regex alternation order; at most one can reach `$`) -/
 def scanZone (s : List Char) : Option Zone :=
-  let pre := match stripPre ['G','M','T'] s with
-    | some r => some r
-    | none => stripPre ['U','T','C'] s
-  match (match pre with | some r => scanNum r | none => none) with
-  | some z => some z
-  | none =>
-  match scanNum s with
-  | some z => some z
-  | none =>
-    let a := match s with | '+' :: r => r | _ => s
-    match lookupTz a with
-    | some _ => some (.abbr a)
-    | none => if s = [] then some .none else none
+  ((zonePrefix s).bind scanNum).or ((scanNum s).or (scanAbbr s))
 
 /-- `_parse_date(s)`: `none` = no match -/
 def parseDate (s : List Char) : Option Groups :=
